@@ -274,6 +274,18 @@ class CaseInsensitiveDict(OrderedDict):
         key = key.lower() if isinstance(key, str) else key
         return super().__contains__(key)
 
+    def __delitem__(self, key):
+        key = key.lower() if isinstance(key, str) else key
+        super().__delitem__(key)
+
+    def pop(self, key, *args):
+        key = key.lower() if isinstance(key, str) else key
+        return super().pop(key, *args)
+
+    def setdefault(self, key, default=None):
+        key = key.lower() if isinstance(key, str) else key
+        return super().setdefault(key, default)
+
 
 class CaseInsensitiveDefaultDict(defaultdict):
     """
@@ -294,6 +306,22 @@ class CaseInsensitiveDefaultDict(defaultdict):
     def __contains__(self, key):
         key = key.lower() if isinstance(key, str) else key
         return super().__contains__(key)
+
+    def __delitem__(self, key):
+        key = key.lower() if isinstance(key, str) else key
+        super().__delitem__(key)
+
+    def pop(self, key, *args):
+        key = key.lower() if isinstance(key, str) else key
+        return super().pop(key, *args)
+
+    def setdefault(self, key, default=None):
+        key = key.lower() if isinstance(key, str) else key
+        return super().setdefault(key, default)
+
+    def update(self, *args, **kwargs):
+        for key, value in dict(*args, **kwargs).items():
+            self[key] = value
 
 
 def strip_inline_comments(source, comment_char='!', str_delim='"\''):
